@@ -75,6 +75,14 @@ fn tier_params(tier: &str) -> Tier {
             b: 60_000,
             c: 60_000,
         },
+        // development aid: the concurrent stratum only
+        "conc" => Tier {
+            harvest_gen: 300,
+            a: 16,
+            a_k: 1,
+            b: 16,
+            c: 30_000,
+        },
         "smoke" => Tier {
             harvest_gen: 300,
             a: 200,
@@ -397,6 +405,8 @@ impl Agg {
             ("block_yields", c.block_yields),
             ("atomic_yields", c.atomic_yields),
             ("atomic_ops", c.atomic_ops),
+            ("atomic_holds", c.atomic_holds),
+            ("atomic_conflicts", c.atomic_conflicts),
         ] {
             Self::bump(&mut self.counters, k, v);
         }
